@@ -185,7 +185,9 @@ def apply_known(ctx):
         if o.verdict != 'violation':
             continue
         for k in known:
-            if k['property'] == ctx.pid and k['key'] == o.key:
+            kk = k['key']
+            same = kk == o.key or (kk.endswith('|*') and o.key.startswith(kk[:-1]))
+            if k['property'] == ctx.pid and same:
                 o.verdict = 'known'
                 hits.append((k, o))
                 break
